@@ -143,7 +143,7 @@ PhasePrune ==
           ELSE IF P = {} THEN Chk(E.ret.ok = 1 /\ E.pruned = <<>>, "nothing to prune", <<1, <<>>>>, <<E.ret.ok, E.pruned>>)
           ELSE Chk(exact, "prune report", <<P, canon>>, <<E.ret.ok, E.pruned, E.obs.nodes>>)
        /\ nodes' = Remove(R)
-       /\ detached' = (detached \ R) \cup DetachedBy(R, R = (IF useDev THEN P2 ELSE P), fin.root)
+       /\ detached' = (detached \ R) \cup DetachedBy(R, R = (IF useDev THEN P2 ELSE P), PruneAnchor(fin))
        /\ ToObs /\ UNCHANGED <<votes, bal, just, fin, pin, poison, nilsink>>
 
 QueryOK(c, lg) ==
